@@ -45,25 +45,26 @@ def _classify_iteration(loop):
     if not isinstance(loop.target, ast.Name) or loop.orelse:
         return 'UIterOrdered'
     key = loop.target.id
-    kinds = set()
-    for st in loop.body:
-        # only `if key.startswith(<constant>): ...` (no else) is recognised
-        if not (isinstance(st, ast.If) and not st.orelse and isinstance(st.test, ast.Call)
+
+    def prefix_test(st):   # `if key.startswith(<constant>): ...` without else
+        return (isinstance(st, ast.If) and not st.orelse and isinstance(st.test, ast.Call)
                 and isinstance(st.test.func, ast.Attribute) and st.test.func.attr == 'startswith'
                 and isinstance(st.test.func.value, ast.Name) and st.test.func.value.id == key
-                and len(st.test.args) == 1 and isinstance(st.test.args[0], ast.Constant)):
-            return 'UIterOrdered'
-        body = st.body
+                and len(st.test.args) == 1 and isinstance(st.test.args[0], ast.Constant))
+
+    exits = [n for st in loop.body for n in ast.walk(st) if isinstance(n, (ast.Break, ast.Continue, ast.Return, ast.Raise))]
+    # "is there a key with prefix p": ONE predicate, flag = constant, break.  Two such scans sharing a loop stop at
+    # whichever kind comes first in the file and are order-sensitive, as is any early exit next to other work.
+    if len(loop.body) == 1 and prefix_test(loop.body[0]):
+        body = loop.body[0].body
         if (len(body) == 2 and isinstance(body[1], ast.Break) and isinstance(body[0], ast.Assign)
-                and isinstance(body[0].value, ast.Constant) and not _uses_name(body[0], key)):
-            kinds.add('UIterExists')           # flag = constant; break
-        elif all(isinstance(b, ast.Assign) and len(b.targets) == 1 and _keyed_slot(b.targets[0], key) for b in body):
-            kinds.add('UIterKeyedStore')       # some_dict[f(key)][.attr] = g(key): one slot per key
-        else:
-            return 'UIterOrdered'
-    if kinds == {'UIterExists'}:
-        return 'UIterExists'
-    if kinds and kinds <= {'UIterExists', 'UIterKeyedStore'}:
+                and isinstance(body[0].value, ast.Constant) and not _uses_name(body[0], key) and len(exits) == 1):
+            return 'UIterExists'
+    # "one keyed slot per key": every statement is a prefix test whose body only stores into slots selected by the key,
+    # and the loop has no early exit at all
+    if not exits and loop.body and all(
+            prefix_test(st) and st.body and all(isinstance(b, ast.Assign) and len(b.targets) == 1 and _keyed_slot(b.targets[0], key)
+                                                for b in st.body) for st in loop.body):
         return 'UIterKeyedStore'
     return 'UIterOrdered'
 
